@@ -15,8 +15,18 @@ def main():
     a = ap.parse_args()
     seed = int(os.environ.get("VERIF_SEED", "20260925"))
     prop = a.prop.upper()
+    target = None
+    if a.replay:
+        # a replay re-runs the deterministic check under the seed and tier recorded in the file and reports whether the
+        # recorded case (or the recorded broken obligation) shows again; read it before this run clears the directory
+        import json
+        with open(a.replay) as f:
+            target = json.load(f)
+        seed = int(target.get("seed", seed))
+        a.tier = target.get("tier", a.tier)
     mod = importlib.import_module("harness.%s" % prop.lower())
     ctx = common.Ctx(prop, a.tier, seed, a.replay)
+    ctx.replay_target = target
     limit = float(os.environ.get("VERIF_CHECK_TIMEOUT", "1500" if a.tier == "quick" else "14400"))
 
     def watchdog():
